@@ -80,8 +80,14 @@ class Observer:
 
 
 def run_damage(kind, damages, seed=0, tid=1):
-    """kind: 'cache' or 'fanout' (the damage is done to shard 001 of a 2-shard FanoutCache)"""
+    """kind: 'cache' or 'fanout' (the damage is done to shard 001 of a 2-shard FanoutCache); '-large': > 100 file-backed items"""
     import diskcache
+    kind0 = kind
+    reps = 2
+    if kind.endswith('-large'):
+        # more than one page (100) of file-backed items in the damaged cache / shard
+        kind = kind[:-6]
+        reps = 40
     rng = random.Random(seed)
     envctl.SeededUrandom(seed).install()
     top = envctl.scratch('chk')
@@ -96,7 +102,7 @@ def run_damage(kind, damages, seed=0, tid=1):
         # integer keys; values: three file-backed, two inline
         vals = [200000 + 40 * 100 + 1, 200000 + 36 * 100 + 2, 300000 + 36 * 100 + 4, 5, 100001, 200000 + 44 * 100 + 6, 7,
                 400000 + 40 * 100 + 3]
-        for i, v in enumerate(vals * 2):
+        for i, v in enumerate(vals * reps):
             obj.set(i, vm.to_py(v))
         obj.close()
         con = sqlite3.connect(os.path.join(root, 'cache.db'))
@@ -188,7 +194,7 @@ def run_damage(kind, damages, seed=0, tid=1):
         obs2 = ob.observe(disk)
         r3 = obj.check()
         obj.close()
-        return {'id': tid, 'kind': kind, 'damages': damages, 'obs0': obs0, 'obs1': obs1, 'obs2': obs2,
+        return {'id': tid, 'kind': kind0, 'damages': damages, 'obs0': obs0, 'obs1': obs1, 'obs2': obs2,
                 'warn1': ob.warn_list(r1), 'warn2': ob.warn_list(r2), 'warn3': ob.warn_list(r3), 'ev': [1],
                 'busy': busy, 'raised0': raised0, 'warn0': warn0}
     finally:
